@@ -38,6 +38,8 @@ def cases(tier, seed):
                     out.append(dict(kind="statio", dim=2, n=n, b=b, nb=None, bb=None, box=box, method=method, seed=k, draws=2))
                 out.append(dict(kind="nonstatio", dim=2, n=4, b=2, nb=8, bb=2, nt=6, bt=2, cart=False, box=box, tbox=box,
                                 method=method, seed=k, draws=5))
+                out.append(dict(kind="nonstatio", dim=1, n=5, b=3, nb=2, bb=2, nt=4, bt=3, cart=False, box=box, tbox=box,
+                                method=method, seed=k, draws=4))          # pairing in 1-D: b rows inside, the border still crossed with the times
     # (b) the count clause for grid sampling: the spacing is float arithmetic, n up to 128
     N = 64 if quick else 128
     for n in range(1, N + 1):
